@@ -72,7 +72,9 @@ theorem flatStart_spec (pref : List (Str × Str)) (hpref : prefOK pref = true)
     resolveTag rst.scope (flatStart pref st tag attrs).1 (normAttrs (flatStart pref st tag attrs).2.1) =
       some (tag, attrs, scopeOf (flatStart pref st tag attrs).2.2.bindings) ∧
     TagInv st.bindings (flatStart pref st tag attrs).2.2 ∧
-    LevelOK (flatStart pref st tag attrs).2.2.bindings d' := by
+    LevelOK (flatStart pref st tag attrs).2.2.bindings d' ∧
+    ∃ plain, splitAttrs (normAttrs (flatStart pref st tag attrs).2.1) =
+      some ((flatStart pref st tag attrs).2.2.declared.map (fun d => (d.1, normUri d.2)), plain) := by
   obtain ⟨hd', _, htag, hattrs, hdn⟩ := ckStartLike_parts hck
   obtain ⟨hattrs1, hattrs2⟩ := attrsOK_parts hattrs
   obtain ⟨lv1, lv2, lv3⟩ := inv.level
@@ -101,7 +103,6 @@ theorem flatStart_spec (pref : List (Str × Str)) (hpref : prefOK pref = true)
   generalize ht2 : flatAttrs pref t1 attrs = fa at *
   obtain ⟨as, t2⟩ := fa
   simp only at i2 e2 r2 ⊢
-  refine ⟨?_, i2, i2.legal, i2.xml, fun e => e2.jprop (j1 (hj0 e))⟩
   -- the reader
   obtain ⟨front, hb, hf⟩ := i2.front
   have ra := resolveAttrs_of_res i2.legal r2 hattrs1
@@ -121,6 +122,7 @@ theorem flatStart_spec (pref : List (Str × Str)) (hpref : prefOK pref = true)
       simp [normAttrs, List.map_map, Function.comp_def]
     rw [e, splitAttrs_decls _ hlegal _ _ (splitAttrs_plain _ ra.2)]
     simp
+  refine ⟨?_, i2, ⟨i2.legal, i2.xml, fun e => e2.jprop (j1 (hj0 e))⟩, ⟨_, hsplit⟩⟩
   have hscope : (t2.declared.map (fun d => (d.1, normUri d.2))).reverse ++ rst.scope = scopeOf t2.bindings := by
     rw [inv.scope, hb]
     simp only [scopeOf, List.map_append]
@@ -282,7 +284,7 @@ theorem step_sim (pref : List (Str × Str)) (hpref : prefOK pref = true)
       simp only [ckStep, Option.map_eq_some_iff] at hck
       obtain ⟨d', hd', rfl⟩ := hck
       obtain ⟨_, hroot, _, _, _⟩ := ckStartLike_parts hd'
-      obtain ⟨rt, ti, lv⟩ := flatStart_spec pref hpref st rst ck inv tag attrs d' hd'
+      obtain ⟨rt, ti, lv, _⟩ := flatStart_spec pref hpref st rst ck inv tag attrs d' hd'
       refine ⟨{ rst with open_ := ((flatStart pref st tag attrs).1, tag, rst.scope) :: rst.open_,
                          scope := scopeOf (flatStart pref st tag attrs).2.2.bindings, rootSeen := true }, ?_, ?_⟩
       · unfold flatStep
